@@ -195,6 +195,10 @@ class Verdict:
             for r in self.inconclusive:
                 print(f"INCONCLUSIVE property={self.prop} reason={r}")
             code = 2
+        if os.environ.get("VERIF_SEEN_LOG"):
+            # analysis aid (tools/prune_findings.py): which listed findings a run actually observed
+            with open(os.environ["VERIF_SEEN_LOG"], "a") as fh:
+                fh.write(json.dumps({"property": self.prop, "tier": tier(), "seed": seed(), "seen": self.known_seen}) + "\n")
         self.ev.extra["verdict"] = {0: "held_on_observed", 1: "violated", 2: "inconclusive"}[code]
         self.ev.write()
         print(
